@@ -15,6 +15,7 @@ fn cfg() -> Cfg {
         hash_xor: 0,
         contract: None,
         adopt_alive: false,
+        judge: None,
     }
 }
 
